@@ -57,6 +57,8 @@ pub async fn process_connection_events(
     classic: bool,
     incoming: SrtlaIncoming,
 ) -> Result<()> {
+    #[cfg(feature = "verif-hooks")]
+    let local_listener = &crate::net::verif_hooks::ClientSock::wrap(local_listener);
     if idx >= connections.len() {
         return Ok(());
     }
